@@ -57,8 +57,11 @@ func (m *ringMachine) step(x *hx, o op) {
 	for i := len(m.model) - 1; i >= 0; i-- {
 		want = append(want, m.model[i])
 	}
-	if got := m.real.ToSlice(); !eqInts(got, want) {
+	got := m.real.ToSlice()
+	if !eqInts(got, want) {
 		x.failOp("wrong-ToSlice", "ToSlice() = %v, model (newest first) %v, cap %d after %d adds", got, want, m.cap, m.adds)
+	} else {
+		holdSlice(x, "ToSlice", got, heldGarbage)
 	}
 }
 
